@@ -274,6 +274,53 @@ theorem untouched_argument_positions :
     (LiquidVerif.Gen.C02.FilterName.all.filter (fun n => (argOps n).2.any (fun o => o.pokes.isEmpty))).map (·.name)
       = ["default"] := by decide
 
+/-! ### `Mode.LAX` / `Mode.WARN` (deepening round)
+
+Under a tolerant mode `Environment.error` swallows the `UndefinedError` of a top-level node and the render goes on: a
+render "succeeds" whatever happens, so the hypothesis of sentence 1 no longer says anything and the refinement is
+**false** there; what remains true is stated after the counter-example. -/
+
+/-- top-level render in `Mode.LAX` from plain data, output only -/
+def renderLaxData (F : FilterSem) (k : Kind) (globals : List (String × Data)) (ss : List Stmt) : String :=
+  (renderLax F k { scopes := [], locals := [], globals := globals.map (fun kv => (kv.1, Val.data kv.2)) } ss).2
+
+/-- `a{{ m | append: "x" }}b` with `m` missing -/
+def laxWitness : List Stmt := [.text "a", .output ⟨.path "m" [], [⟨"append", [.lit (.str "x")]⟩]⟩, .text "b"]
+
+/-- **the refinement does not hold in `Mode.LAX`**: the default type renders `axb`, every strict type renders `ab`
+    (the node is dropped) — both renders "succeed" -/
+theorem lax_refinement_counterexample :
+    renderLaxData builtinFilters .dflt [] laxWitness = "axb" ∧
+    renderLaxData builtinFilters .strict [] laxWitness = "ab" ∧
+    renderLaxData builtinFilters .falsy [] laxWitness = "ab" ∧
+    renderLaxData builtinFilters .strictDefault [] laxWitness = "ab" := by decide
+
+/-- what holds in `Mode.LAX`, 1: when no node raises under kind `k`, the lax render is the strict-mode render, hence
+    (sentence 1) the default-kind output -/
+theorem lax_agrees_when_no_node_raises (F : FilterSem) (hF : Refines F) (k : Kind) :
+    ∀ (ss : List Stmt) (e : Env), (∀ s ∈ ss, ∀ e', (render F k e' s).isOk = true) →
+      (renderLax F k e ss).2 = (renderLax F .dflt (relaxEnv e) ss).2 ∧
+      relaxEnv (renderLax F k e ss).1 = (renderLax F .dflt (relaxEnv e) ss).1 := by
+  intro ss
+  induction ss with
+  | nil => intro e _; exact ⟨rfl, rfl⟩
+  | cons s rest ih =>
+    intro e h
+    have hs := h s List.mem_cons_self e
+    cases hr : render F k e s with
+    | error err => rw [hr] at hs; cases hs
+    | ok p =>
+      obtain ⟨e1, o1⟩ := p
+      have hd := render_relax hF s e e1 o1 hr
+      have := ih e1 (fun s' hs' => h s' (List.mem_cons_of_mem _ hs'))
+      simp only [renderLax, hr, hd, this.1, this.2, and_self]
+
+/-- what holds in `Mode.LAX`, 2: under the default type no node is ever dropped because of an `UndefinedError` — a
+    dropped node raised something else -/
+theorem lax_default_never_drops_for_undefined (s : Stmt) (e : Env) (he : relaxEnv e = e) :
+    render builtinFilters .dflt e s ≠ .error .undefined :=
+  render_quiet builtin_refines builtin_quiet s e he
+
 /-! ### Non-vacuity -/
 
 instance : DecidableEq (Except Err String) := fun a b =>
